@@ -23,9 +23,13 @@ def items_for(letter, k, n, kind):
     """n pairwise distinct items for dimension number k; item sets of different dimensions
     are disjoint and never equal to a dimension letter or name."""
     if kind in ("int", "uint"):
+        if n > 99:
+            return [10000 * (k + 1) + i for i in range(n)]  # a very long dimension: keep the item sets of different dimensions disjoint
         return [100 * (k + 1) + i for i in range(n)]
     if kind == "umixed":
         # an untyped dimension may mix label types (['pre-industrial', 1950, 2000]); the library's own tests do
+        if n > 99:
+            return [f"{letter}{i}" if i % 2 == 0 else 10000 * (k + 1) + i for i in range(n)]
         return [f"{letter}{i}" if i % 2 == 0 else 100 * (k + 1) + i for i in range(n)]
     return [f"{letter}{i}" for i in range(n)]
 
@@ -45,6 +49,7 @@ def universes(
     with_time=False,
     letters=None,
     long_dim=0,
+    long_sizes=(12, 16, 17, 24, 33, 48),
 ):
     n = draw(st.integers(min_dims, max_dims))
     if letters is None:
@@ -70,7 +75,7 @@ def universes(
                 seen.add(lens[i])
     if long_dim and draw(st.integers(0, long_dim - 1)) == 0:
         # one long dimension (years, vintages, products): item counts beyond any small-size threshold
-        lens[draw(st.integers(0, n - 1))] = draw(st.sampled_from([12, 16, 17, 24, 33, 48]))
+        lens[draw(st.integers(0, n - 1))] = draw(st.sampled_from(list(long_sizes)))
     dims = []
     zero_used = False
     for k, (l, ln) in enumerate(zip(letters, lens)):
